@@ -5,12 +5,15 @@
 (*          (99: a value that is in none of the parameter's table entries)        *)
 (*   oth    1 iff every OTHER registered parameter of the model reads as it did   *)
 (*          when the object was built                                             *)
-(* [ev |-> "init", rd]                 the model is built at rd                   *)
+(* [ev |-> "init", cfg, rd]            the model is built from cfg (constructor   *)
+(*                                     arguments, defaults omitted or not) and    *)
+(*                                     reads rd                                   *)
 (* [ev |-> "set", d, v, rd, oth]       model[name_d] = table_d[v]                 *)
 (* [ev |-> "eval", rd, oth, dig, fresh] the model is evaluated; digest ids of its *)
 (*                                     result and of a freshly built model's      *)
 (* Rejected at the first event where rd differs from the specification's reg      *)
-(* (ReadYourWrite, FrameRule, RunIsPure), where oth = 0, or where dig # fresh.    *)
+(* (ReadYourWrite, FrameRule, RunIsPure), where oth = 0, where dig # fresh, or    *)
+(* where a freshly constructed model does not read what it was constructed with.  *)
 EXTENDS Integers, Sequences, FiniteSets, TLC, Json, IOUtils, TLCExt
 VARIABLES l, reg, cur, dead
 TraceLog == ndJsonDeserialize(IOEnv.TRACE_FILE)
@@ -24,6 +27,7 @@ Step ==
                             [] e.ev = "set" /\ r0 # <<>> /\ e.d \in 1..Len(r0) -> [r0 EXCEPT ![e.d] = e.v]
                             [] OTHER -> r0
                     why == CASE e.ev = "init" /\ r0 # <<>> -> "second-init"
+                             [] e.ev = "init" /\ e.rd # e.cfg -> "ConstructorHonoured"
                              [] e.ev # "init" /\ r0 = <<>> -> "no-init"
                              [] e.ev = "set" /\ ~(e.d \in 1..Len(r0)) -> "bad-index"
                              [] e.ev = "set" /\ e.rd[e.d] # e.v -> "ReadYourWrite"
